@@ -38,6 +38,7 @@ NULL = '-'
 FAMILIES = {
     'case': ['abc', 'ABC', 'Abc', 'abC'],
     'space': ['a b', 'a  b', 'a b ', ' a b', 'a\tb', 'a\u00a0b', 'ab'],
+    'norm2': ['caf\u00e9', 'cafe\u0301', 'cafe', 'a\u200bb', 'ab', 'a\u200b\u200bb', 'a\u00adb'],  # canonically equivalent / ignorable code points
     'norm': ['\u00e9', 'e\u0301', 'e', '\u00c5', 'A\u030a', '\u212b'],      # NFC / NFD / compatibility forms
     'empty': [None, '', ' ', '\n', '\u200b'],
     'newline': ['a', 'a\n', 'a\n\n', '\na', 'a\r', 'a\r\n', 'a '],
@@ -141,11 +142,13 @@ class Scn:
         for o in self.objs:
             toks.append('o:' + (o if not o.startswith('R') else 'R%s~%s' % (o[1:], pcre[o[1:]])))
         toks += ['p:' + ','.join(str(i) for i in p) for p in self.pipes]
-        toks += ['m:%d:%d:%d:%s' % tuple(m[:4]) + (':%d' % m[4] if len(m) > 4 and m[4] else '') for m in self.msgs]
+        toks += [('m:%d' % m[0] if m[0] >= 0 else 'a:%d' % (-m[0] - 1)) + ':%d:%d:%s' % tuple(m[1:4])
+                 + (':%d' % m[4] if len(m) > 4 and m[4] else '') for m in self.msgs]
         return ' '.join(toks)
 
     def kinds(self):
         used = {i for p in self.pipes for i in p if i < len(self.objs)}
+        used |= {-m[0] - 1 for m in self.msgs if m[0] < 0 and -m[0] - 1 < len(self.objs)}
         return sorted({self.objs[i][0] for i in used})
 
 
@@ -190,8 +193,16 @@ def gen_scenario(rng, hist, big):
     # (the rules are about the sequence a handler sees, whoever logs)
     threads = [0] if rng.random() < 0.4 else rng.sample([0, 1, 2, 3], rng.randint(2, 4))
     hist['threads_%d' % len(threads)] = hist.get('threads_%d' % len(threads), 0) + 1
+    direct_targets = [i for i, o in enumerate(objs) if o[0] in 'NDVRX']
+    seq_targets = [i for i, o in enumerate(objs) if o[0] == 'N']
+    direct_targets += seq_targets * 3                       # mostly the counters
+    direct = bool(direct_targets) and rng.random() < 0.35
     for t in texts:
         p = rng.randrange(len(pipes)) if rng.random() > 0.02 else len(pipes)   # rarely: a pipeline that does not exist
+        if direct and rng.random() < 0.3:
+            # another user of a handler object calls attributes() / filter() on it directly (step "a:")
+            p = -(rng.choice(direct_targets) + 1)
+            hist['direct_calls'] = hist.get('direct_calls', 0) + 1
         msgs.append((p, rng.randrange(5), rng.choice([0, 0, 0, 1, 2, 3, 4, 5, 7]), tok_text(t), rng.choice(threads)))
     return Scn(objs, pipes, msgs)
 
@@ -204,6 +215,11 @@ def exhaustive_scenarios(maxlen):
         for seq in itertools.product(range(len(texts) * 2), repeat=k):
             msgs = [(i % 2, 4, (s // len(texts)), texts[s % len(texts)], (i + k) % 3) for i, s in enumerate(seq)]
             yield Scn(['N', 'X0', 'D'], [[0, 1, 2], [2, 0]], msgs)
+            if k <= maxlen - 1:
+                # the same, with every message of a dropping flag replaced by a direct call: attributes() on the
+                # counter (even positions) or filter() on the duplicate filter (odd positions)
+                yield Scn(['N', 'X0', 'D'], [[0, 1, 2], [2, 0]],
+                          [m if not m[2] else ((-1 if i % 2 == 0 else -3), 4, 0, m[3], m[4]) for i, m in enumerate(msgs)])
 
 
 def regex_asts(scns):
@@ -211,9 +227,9 @@ def regex_asts(scns):
 
 
 class Runner:
-    def __init__(self, model, impl):
-        self.model, self.impl = model, impl
-        self.pcre = {}
+    def __init__(self, model, impl, env=None, pcre=None):
+        self.model, self.impl, self.env = model, impl, env
+        self.pcre = {} if pcre is None else pcre
 
     def need_pcre(self, scns):
         new = [a for a in regex_asts(scns) if a not in self.pcre]
@@ -232,7 +248,7 @@ class Runner:
         return [s.line(self.pcre) for s in scns]
 
     def impl_obs(self, lines):
-        rc, out, err = vlib.run_lines(self.impl, lines, timeout=600 if len(lines) > 50 else 60)
+        rc, out, err = vlib.run_lines(self.impl, lines, timeout=600 if len(lines) > 50 else 60, env=self.env)
         return rc, out + ['CRASH'] * (len(lines) - len(out)), err
 
     def model_obs(self, lines):
@@ -295,21 +311,22 @@ def shrink(run, scn):
 def prune(scn):
     """drop unused objects and pipelines, renumber (behaviour-preserving: object k's attribute name
     changes with k, but observations are positional)"""
-    used_p = sorted({m[0] for m in scn.msgs if m[0] < len(scn.pipes)})
+    used_p = sorted({m[0] for m in scn.msgs if 0 <= m[0] < len(scn.pipes)})
     pmap = {p: k for k, p in enumerate(used_p)}
     pipes = [scn.pipes[p] for p in used_p]
-    used_o = sorted({i for p in pipes for i in p if i < len(scn.objs)})
+    used_o = sorted({i for p in pipes for i in p if i < len(scn.objs)}
+                    | {-m[0] - 1 for m in scn.msgs if m[0] < 0 and -m[0] - 1 < len(scn.objs)})
     omap = {o: k for k, o in enumerate(used_o)}
     nobj = len(used_o)
     pipes = [[omap.get(i, nobj) for i in p] for p in pipes]          # a null handler stays a null handler
-    msgs = [(pmap.get(m[0], len(pipes)),) + tuple(m[1:]) for m in scn.msgs]
+    msgs = [((pmap.get(m[0], len(pipes)) if m[0] >= 0 else -(omap.get(-m[0] - 1, nobj) + 1)),) + tuple(m[1:]) for m in scn.msgs]
     return Scn([scn.objs[o] for o in used_o], pipes, msgs)
 
 
 KIND = {'D': 'duplicate', 'N': 'seqnumber', 'V': 'level', 'R': 'regex'}
 OBJ_DOC = ('o:D DuplicateFilter, o:N SeqNumberAttr("s<k>"), o:V<t> LevelFilter(QtMsgType t), o:R<ast>~<PCRE hex> RegExpFilter, '
            'o:FC/FT formatter (constant "X" / shown text + flags char), o:X<b> filter dropping iff bit b of the flags; '
-           'p: pipeline = object numbers; m:<pipeline>:<QtMsgType>:<flags>:<text hex UTF-16, - = null>[:<harness thread that constructs and sends it, 0 = main>]; observations: per message '
+           'p: pipeline = object numbers; m:<pipeline>:<QtMsgType>:<flags>:<text hex UTF-16, - = null>[:<harness thread that constructs and sends it, 0 = main>]; a:<object>:... = attributes()/filter() of that object called directly by another user; observations: per message '
            'the handler calls (1/0 verdict, 1=<n> sequence number), messages end with ;')
 
 
@@ -317,7 +334,7 @@ def describe(scn, run):
     d = []
     for m in scn.msgs:
         p, t, f, tx, th = (tuple(m) + (0,))[:5]
-        d.append({'pipeline': p, 'thread': th, 'type': ['debug', 'warning', 'critical', 'fatal', 'info'][t], 'flags': f,
+        d.append({('pipeline' if p >= 0 else 'direct_call_of_attributes_or_filter_on_object'): (p if p >= 0 else -p - 1), 'thread': th, 'type': ['debug', 'warning', 'critical', 'fatal', 'info'][t], 'flags': f,
                   'text': None if tx == NULL else bytes.fromhex(tx).decode('utf-16-be', 'surrogatepass').encode('unicode_escape').decode()})
     regs = {a: bytes.fromhex(run.pcre[a]).decode() for a in regex_asts([scn]) if not run.pcre.get(a, '!').startswith(('!', 'E'))}
     return d, regs
@@ -404,63 +421,79 @@ def run():
     falsified = [k for k, v in enumerate(verdicts) if v != '1']
     disagree = [k for k, (a, b) in enumerate(zip(obs_i, obs_m)) if a != b]
     model_bad = [k for k, v in enumerate(run_.oracle(lines, obs_m)) if v != '1']
-    reported = set()
-    order = sorted(falsified, key=lambda k: len(lines[k]))
-    alone = [k for k in order[:60] if run_.bad(scns[k])]       # falsified when run alone in a fresh process
-    for k in alone[:40]:
-        small = shrink(run_, scns[k])
-        kinds = [KIND[c] for c in small.kinds() if c in KIND] or ['structure']
-        kind = kinds[0] if len(kinds) == 1 else 'mixed'
-        if kind in reported:
-            continue
-        reported.add(kind)
-        l = small.line(run_.pcre)
-        o = run_.impl_obs([l])[1][0]
-        msgs, regs = describe(small, run_)
-        chk.fail('%s rule violated by the real handler objects on a %d-message scenario' % (kind, len(small.msgs)),
-                 {'kind': kind, 'handler_kinds': kinds, 'scenario_line': l, 'objects': small.objs, 'pipelines': small.pipes,
-                  'messages': msgs, 'regular_expressions': regs, 'implementation_observations': o,
-                  'specified_observations': run_.spec_obs([l])[0],
-                  'model_observations': run_.model_obs([l])[0], 'falsified_scenarios': len(falsified), 'legend': OBJ_DOC,
-                  'scn': {'objs': small.objs, 'pipes': small.pipes, 'msgs': small.msgs}}, kind=kind)
-    if falsified and not alone:
-        # no falsified scenario fails on its own: the handler objects of one scenario were influenced by
-        # objects of EARLIER scenarios of the same process (state that is not per object).  The failing
-        # input is then a list of scenarios run one after the other in one process.
-        k = min(falsified)
+    def report(run_, falsified, where='', extra={}):
+        """shrink and report the scenarios on which the implementation's observations break the rules"""
+        reported = set()
+        order = sorted(falsified, key=lambda k: len(lines[k]))
+        alone = [k for k in order[:60] if run_.bad(scns[k])]       # falsified when run alone in a fresh process
+        for k in alone[:40]:
+            small = shrink(run_, scns[k])
+            kinds = [KIND[c] for c in small.kinds() if c in KIND] or ['structure']
+            kind = kinds[0] if len(kinds) == 1 else 'mixed'
+            if kind in reported:
+                continue
+            reported.add(kind)
+            l = small.line(run_.pcre)
+            o = run_.impl_obs([l])[1][0]
+            msgs, regs = describe(small, run_)
+            chk.fail('%s rule violated by the real handler objects on a %d-step scenario%s' % (kind, len(small.msgs), where),
+                     {**extra, 'kind': kind, 'handler_kinds': kinds, 'scenario_line': l, 'objects': small.objs, 'pipelines': small.pipes,
+                      'messages': msgs, 'regular_expressions': regs, 'implementation_observations': o,
+                      'specified_observations': run_.spec_obs([l])[0],
+                      'model_observations': run_.model_obs([l])[0], 'falsified_scenarios': len(falsified), 'legend': OBJ_DOC,
+                      'scn': {'objs': small.objs, 'pipes': small.pipes, 'msgs': small.msgs}}, kind=kind)
+        if falsified and not alone:
+            # no falsified scenario fails on its own: the handler objects of one scenario were influenced by
+            # objects of EARLIER scenarios of the same process (state that is not per object).  The failing
+            # input is then a list of scenarios run one after the other in one process.
+            k = min(falsified)
 
-        def bad_seq(idx):
-            ls = [lines[i] for i in idx]
-            _, o, _ = run_.impl_obs(ls)
-            return any(v != '1' for v in run_.oracle(ls, o))
-        pre = list(range(max(0, k - 300), k))
-        if not bad_seq(pre + [k]):
-            pre = list(range(k))
-        pre = vlib.shrink_list(pre, lambda keep: bad_seq(keep + [k]), max_steps=120)
-        idx = pre + [k]
-        smalls = [prune(scns[i]) for i in idx]
-        for j in range(len(smalls)):          # shorten every scenario's message list, keeping the whole list failing
-            def with_msgs(ms, j=j):
-                return [sc if i != j else Scn(sc.objs, sc.pipes, ms) for i, sc in enumerate(smalls)]
-
-            def still(ms):
-                ls = [sc.line(run_.pcre) for sc in with_msgs(ms)]
-                if not ms:
-                    return False
+            def bad_seq(idx):
+                ls = [lines[i] for i in idx]
                 _, o, _ = run_.impl_obs(ls)
                 return any(v != '1' for v in run_.oracle(ls, o))
-            smalls = [prune(sc) for sc in with_msgs(vlib.shrink_list(smalls[j].msgs, still, max_steps=60))]
-        ls = [sc.line(run_.pcre) for sc in smalls]
-        o = run_.impl_obs(ls)[1]
-        kinds = sorted({KIND[c] for sc in smalls for c in sc.kinds() if c in KIND}) or ['structure']
-        kind = kinds[0] if len(kinds) == 1 else 'mixed'
-        chk.fail('%s rule violated: handler objects of one scenario are influenced by the objects of an earlier scenario in the '
-                 'same process (%d scenarios run one after the other)' % (kind, len(ls)),
-                 {'kind': kind, 'handler_kinds': kinds, 'cross_scenario': True, 'scenario_lines': ls,
-                  'implementation_observations': o, 'specified_observations': run_.spec_obs(ls),
-                  'falsified_scenarios': len(falsified), 'legend': OBJ_DOC,
-                  'note': 'every scenario creates its own handler objects; the lines are run in ONE harness process, in this order',
-                  'scns': [{'objs': sc.objs, 'pipes': sc.pipes, 'msgs': sc.msgs} for sc in smalls]}, kind=kind)
+            pre = list(range(max(0, k - 300), k))
+            if not bad_seq(pre + [k]):
+                pre = list(range(k))
+            pre = vlib.shrink_list(pre, lambda keep: bad_seq(keep + [k]), max_steps=120)
+            idx = pre + [k]
+            smalls = [prune(scns[i]) for i in idx]
+            for j in range(len(smalls)):          # shorten every scenario's message list, keeping the whole list failing
+                def with_msgs(ms, j=j):
+                    return [sc if i != j else Scn(sc.objs, sc.pipes, ms) for i, sc in enumerate(smalls)]
+
+                def still(ms):
+                    ls = [sc.line(run_.pcre) for sc in with_msgs(ms)]
+                    if not ms:
+                        return False
+                    _, o, _ = run_.impl_obs(ls)
+                    return any(v != '1' for v in run_.oracle(ls, o))
+                smalls = [prune(sc) for sc in with_msgs(vlib.shrink_list(smalls[j].msgs, still, max_steps=60))]
+            ls = [sc.line(run_.pcre) for sc in smalls]
+            o = run_.impl_obs(ls)[1]
+            kinds = sorted({KIND[c] for sc in smalls for c in sc.kinds() if c in KIND}) or ['structure']
+            kind = kinds[0] if len(kinds) == 1 else 'mixed'
+            chk.fail('%s rule violated: handler objects of one scenario are influenced by the objects of an earlier scenario in the '
+                     'same process (%d scenarios run one after the other)%s' % (kind, len(ls), where),
+                     {**extra, 'kind': kind, 'handler_kinds': kinds, 'cross_scenario': True, 'scenario_lines': ls,
+                      'implementation_observations': o, 'specified_observations': run_.spec_obs(ls),
+                      'falsified_scenarios': len(falsified), 'legend': OBJ_DOC,
+                      'note': 'every scenario creates its own handler objects; the lines are run in ONE harness process, in this order',
+                      'scns': [{'objs': sc.objs, 'pipes': sc.pipes, 'msgs': sc.msgs} for sc in smalls]}, kind=kind)
+
+    report(run_, falsified)
+
+    # ---- the same scenarios with the harness under a UTF-8 locale (QLocale / ICU collation active):
+    # the rules compare texts code unit by code unit, whatever the locale
+    loc_env = {'LC_ALL': 'en_US.UTF-8', 'LANG': 'en_US.UTF-8', 'LC_COLLATE': 'en_US.UTF-8', 'LC_CTYPE': 'en_US.UTF-8'}
+    run_loc = Runner(model, impl, env=loc_env, pcre=run_.pcre)
+    rc_l, obs_l, err_l = run_loc.impl_obs(lines)
+    if rc_l != 0:
+        chk.fail('implementation crashed on a scenario under LC_ALL=en_US.UTF-8', {'kind': 'crash', 'rc': rc_l, 'stderr': err_l[-400:], 'environment': loc_env}, kind='crash')
+    verdicts_l = run_.oracle(lines, obs_l)
+    falsified_l = [k for k, v in enumerate(verdicts_l) if v != '1']
+    if falsified_l and not falsified:
+        report(run_loc, falsified_l, ' with the process under LC_ALL=en_US.UTF-8', {'environment': loc_env})
     if disagree:
         k = min(disagree, key=lambda k: len(lines[k]))
         chk.broke('correspondence: model (translated configuration) and real handlers differ on %d scenarios' % len(disagree),
@@ -533,7 +566,10 @@ def run():
         'regex_expressions': len(run_.pcre), 'regex_only_verdicts': {'match': regex_true, 'no_match': regex_false},
         'text_classes': textclass, 'generator_histogram': dict(sorted(hist.items())),
         'disagreements_model_vs_impl': len(disagree), 'oracle_evaluated_on_impl_scenarios': len(verdicts),
-        'oracle_falsified_scenarios': len(falsified), 'variants': extra})
+        'oracle_falsified_scenarios': len(falsified),
+        'locale_subrun': {'environment': loc_env, 'scenarios': len(lines), 'oracle_falsified_scenarios': len(falsified_l),
+                          'observations_differing_from_C_locale_run': sum(1 for x, y in zip(obs_l, obs_i) if x != y)},
+        'variants': extra})
     pick = [0, len(scns) // 3, len(scns) // 2]
     chk.samples = [{'scenario': lines[i][:400], 'impl': obs_i[i][:200], 'model': obs_m[i][:200]} for i in pick if i < len(scns)]
     return chk.finish()
@@ -553,7 +589,7 @@ def replay(path):
         print('model passes / specified', vlib.run_lines(model, [l], ['level'])[1])
         return 0
     if r.get('scns'):
-        run_ = Runner(model, impl)
+        run_ = Runner(model, impl, env=r.get('environment'))
         scs = [Scn(x['objs'], x['pipes'], [tuple(m) for m in x['msgs']]) for x in r['scns']]
         run_.need_pcre(scs); run_.drop_unprintable(scs)
         ls = run_.lines(scs)
@@ -567,7 +603,9 @@ def replay(path):
     s = r.get('scn')
     if not s:
         print(json.dumps(r, indent=1)); return 0
-    run_ = Runner(model, impl)
+    run_ = Runner(model, impl, env=r.get('environment'))
+    if r.get('environment'):
+        print('environment    ', r['environment'])
     scn = Scn(s['objs'], s['pipes'], [tuple(m) for m in s['msgs']])
     run_.need_pcre([scn]); run_.drop_unprintable([scn])
     l = scn.line(run_.pcre)
